@@ -106,6 +106,25 @@ def pool(name, **opts):
                         seen.add(o[1])
                         vs.append(o[1])
                         stats['pool_from_sibling'] += 1
+        if name in ('vatin', 'eu.vat'):
+            # the dispatchers: a few numbers of every country that has a VAT module, with the country prefix
+            from stdnum.util import get_cc_module
+            ccs = sorted(set(n.split('.')[0].rstrip('_') for n in core.number_modules() if '.' in n)) + ['el', 'xi', 'eu', 'im']
+            for cc in ccs:
+                try:
+                    sub = get_cc_module(cc if cc not in ('el', 'xi', 'eu', 'im') else {'el': 'gr', 'xi': 'gb'}.get(cc, 'eu'), 'vat')
+                except Exception:  # noqa: B902
+                    sub = None
+                sname = sub.__name__[7:] if sub is not None else None
+                if sname not in core.number_modules():
+                    continue
+                for x in seeds(sname)[:5]:
+                    for cand in (cc.upper() + x, x):
+                        o = core.out(m.validate, cand, **opts)
+                        if o[0] == 'ok' and isinstance(o[1], str) and o[1] not in seen and core.out(m.validate, o[1], **opts)[0] == 'ok':
+                            seen.add(o[1])
+                            vs.append(o[1])
+                            stats['pool_from_country_vat'] += 1
         _pool_cache[key] = (vs, lost)
     return _pool_cache[key][0]
 
